@@ -66,6 +66,12 @@ func bufValid(b any) bool { return b != nil }
 // (the precondition of every serialiser: an assumption about memory size, not about the code).
 func bufSmall(b any) bool { return b != nil }
 
+// sends(): ghost counter of datagrams handed to transport.Send so far.
+func sends() int { return 0 }
+
+// metric(m): ghost value of a prometheus counter / gauge.
+func metric(m any) int { return 0 }
+
 // bufRoom(b, front, back): the buffer can take front more bytes in front and back more behind without reallocating.
 func bufRoom(b any, front, back int) bool { return b != nil }
 
